@@ -110,11 +110,13 @@ def handleEval (req : Sexp) : Sexp :=
   | .error d => mkList "err" [.atom (diagName d)]
   | .ok ms =>
     let fails := (fieldArgs req "failon").map (fun f => match args f with | [a, b] => (sOf a, sOf b) | _ => ([], []))
-    let sem : CustomSem := { failsOn := fun fn v =>
+    let failsOn : Str.S → Val → Bool := fun fn v =>
       let v' := match v with | .ptr _ x => x | x => x
-      match v' with
+      let v'' := match v' with | .struct ((_, x) :: _) => x | x => x
+      match v'' with
       | .basic r => fails.any (fun (f, r') => f == fn && r' == r)
-      | _ => false }
+      | _ => false
+    let sem : CustomSem := { failsOn := failsOn, isCtor := fun fn => "New".toList.isPrefixOf fn }
     let prog : Program := { conv := gc.conv, methods := ms, sem := sem }
     let wantSpec := (fieldArgs req "spec").any (fun x => asString x == "structural")
     let outs := (fieldArgs req "calls").map (fun cl =>
